@@ -89,7 +89,7 @@ func vpNameProcArgs(sel int, hd uint64, name string) (uint32, []byte) {
 func VPH_C07_names() {
 	N := 3
 	if vpTier() == 1 {
-		N = 5
+		N = 4 // 5 did not finish in two hours (growth is about 4x per byte)
 	}
 	fs := vpStdTree()
 	env := vpServer(fs, ExportOptions{})
